@@ -748,6 +748,11 @@ impl World {
                     }
                 }
             }
+            if forged && d == data {
+                // the flips cancelled each other out: the datagram is genuine after all
+                forged = false;
+                intact = d.len();
+            }
             if faults_on && ecn.is_some() && self.rng.permille(self.netcfg.ce_pm) {
                 ecn = Some(EcnCodepoint::Ce);
                 self.net.fired.inc("ce");
@@ -952,6 +957,13 @@ impl World {
                         self.mon.cnt.inc("c04.forged_delivered");
                         let authed = conn.c.verif_probe().authed_packets - pre_authed;
                         let post_rx = format!("{:?}", conn.c.stats().frame_rx);
+                        if (authed > 0 || post_rx != pre_rx) && std::env::var("QV_C04_DEBUG").is_ok() {
+                            let hx = |b: &[u8]| b.iter().map(|x| format!("{x:02x}")).collect::<String>();
+                            eprintln!("C04DEBUG forged copy={} gid={} data={}", d.copy, d.gid, hx(&d.data));
+                            for r in self.recent.iter().filter(|r| r.gid == d.gid) {
+                                eprintln!("C04DEBUG base gid={} data={}", r.gid, hx(&r.data));
+                            }
+                        }
                         if authed > 0 {
                             // (being counted as authenticated is what restarts the idle and
                             // keep-alive timers and what makes a client ignore a later Retry or
